@@ -5,7 +5,7 @@ import ast
 import copy
 import itertools
 import re
-from typing import Any, Callable, Iterator
+from typing import Any, Callable, Iterable, Iterator
 
 from ..astutil import (Locals, call_name, calls_in, cfg_of, constructs_error, local_names, names_in, norm, receivers, region, resolved_text,
                        stmt_of, where)
@@ -13,7 +13,9 @@ from ..cfg import CFG, EXIT, walk_own
 from ..core import Report
 
 LEVEL = ("structural clauses on the region of merge_properties / _process_properties / _process_models, decided on paths (small symbolic "
-         "execution over isinstance atoms, statement CFG), never on statement shape: every merge function dispatches symmetrically in "
+         "execution over isinstance atoms, statement CFG), never on statement shape (a helper that is handed the classes it tests, that "
+         "builds a result from arguments it does not test, or that is a predicate over isinstance tests is executed as part of each "
+         "caller, with the classes of that call; a loop over a written-out sequence is unrolled): every merge function dispatches symmetrically in "
          "its two arguments, the class that is discarded at a merge site is the wider one (Any > number/string > integer > enum), the "
          "smaller enum wins and both subset directions are tried, incompatible pairs end in an error, the enum subset decision looks at "
          "values; requiredness is a disjunction, inline members' `required` lists are unioned on every path and reach every inserted "
@@ -65,21 +67,104 @@ def _resolve(e: ast.expr, st: _State) -> ast.expr:
 _NEG = {ast.IsNot: ast.Is, ast.NotEq: ast.Eq, ast.NotIn: ast.In}
 
 
+class Follow:
+    """the helper functions a symbolic execution steps into instead of treating their call as an opaque value:
+    `value`: functions that test their arguments against classes they are handed as parameters (`isinstance(a, narrow)`) - what such a
+             function decides is a fact of each call, not of the function, so it is decided in each caller with the classes of that call;
+    `test`:  the same plus predicates (functions that return the truth value of isinstance tests on their arguments), where they are
+             used as a test"""
+
+    def __init__(self, value: dict[str, ast.FunctionDef] | None = None, test: dict[str, ast.FunctionDef] | None = None) -> None:
+        self.value = dict(value or {})
+        self.test = {**(test or {}), **self.value}
+
+
+def _site(c: ast.Call) -> tuple[str, int, int]:
+    """identifies a call in the source (survives the copies made while resolving locals)"""
+    return call_name(c).rsplit(".", 1)[-1], getattr(c, "lineno", -1), getattr(c, "col_offset", -1)
+
+
+def _bind_args(fn: ast.FunctionDef, c: ast.Call) -> dict[str, ast.expr] | None:
+    """parameter -> argument expression (or default) of a call, None when the call cannot be matched to the signature statically"""
+    a = fn.args
+    if a.vararg or a.kwarg or any(isinstance(x, ast.Starred) for x in c.args) or any(kw.arg is None for kw in c.keywords):
+        return None
+    pos = [p.arg for p in [*a.posonlyargs, *a.args]]
+    if len(c.args) > len(pos):
+        return None
+    out: dict[str, ast.expr] = dict(zip(pos, c.args))
+    for p, d in zip(pos[len(pos) - len(a.defaults):], a.defaults):
+        out.setdefault(p, d)
+    for p, d in zip(a.kwonlyargs, a.kw_defaults):
+        if d is not None:
+            out.setdefault(p.arg, d)
+    allowed = {p.arg for p in [*a.args, *a.kwonlyargs]}
+    for kw in c.keywords:
+        if kw.arg not in allowed or kw.arg in dict(zip(pos, c.args)):
+            return None
+        out[kw.arg] = kw.value
+    return out if set(out) == {p.arg for p in [*a.posonlyargs, *a.args, *a.kwonlyargs]} else None
+
+
 class SymExec:
     """terminals: (return statement or None for falling off the end, resolved return expression, state)"""
 
-    def __init__(self, fn: ast.FunctionDef, env: dict[str, bool] | None = None) -> None:
+    def __init__(self, fn: ast.FunctionDef, env: dict[str, bool] | None = None, follow: Follow | None = None) -> None:
         self.fn = fn
         self.env = env or {}
+        self.follow = follow
+        self.followed: set[tuple[str, int, int]] = set()  # the calls that were stepped into
         self.atoms: dict[str, ast.expr] = {}
         self.terminals: list[tuple[ast.stmt | None, ast.expr | None, _State]] = []
+        self._sinks = [self.terminals]  # where a return / raise is recorded: the function itself, or the call that is being followed
+        self._frames = [getattr(fn, "name", "")]
+        self._loops: list[tuple[list[_State], list[_State]]] = []  # per enclosing unrolled loop: the states at `continue` / at `break`
         self.budget = 4000
         for st in self._seq(fn.body, [_State()]):
             self.terminals.append((None, None, st))
 
+    # -- calls that are followed into the callee -----------------------------------------------------------------------
+    def _follow(self, call: ast.expr | None, st: _State, mode: str, pre: bool = False) -> list[tuple[ast.stmt | None, ast.expr, _State]] | None:
+        """the outcomes of a call of a `Follow` function, executed with its parameters bound to the arguments of this call: (raise
+        statement or None, what is returned - in the caller's terms -, state).  None: not such a call (the caller treats it as a value).
+        `pre`: the argument expressions are already resolved."""
+        if self.follow is None or not isinstance(call, ast.Call):
+            return None
+        callee = (self.follow.test if mode == "test" else self.follow.value).get(call_name(call))
+        if callee is None or callee.name in self._frames or len(self._frames) > 3:
+            return None
+        bound = _bind_args(callee, call)
+        if bound is None:
+            return None
+        self.followed.add(_site(call))
+        saved = st.store
+        inner = st.fork()
+        inner.store = {p: (copy.deepcopy(v) if pre else _resolve(v, st)) for p, v in bound.items()}
+        sink: list[tuple[ast.stmt | None, ast.expr | None, _State]] = []
+        self._sinks.append(sink)
+        self._frames.append(callee.name)
+        try:
+            rest = self._seq(callee.body, [inner])
+        finally:
+            self._sinks.pop()
+            self._frames.pop()
+        out: list[tuple[ast.stmt | None, ast.expr, _State]] = []
+        for s, e, s2 in sink + [(None, None, s2) for s2 in rest]:
+            s2.store = dict(saved)  # the callee's locals end with the call
+            out.append((s if isinstance(s, ast.Raise) else None, e if e is not None else ast.Constant(value=None), s2))
+        return out
+
+    def _returned(self, followed: list[tuple[ast.stmt | None, ast.expr, _State]]) -> list[tuple[ast.expr, _State]]:
+        """the outcomes in which the followed call returns; one that raises ends the caller as well"""
+        for rs, _, s2 in followed:
+            if rs is not None:
+                self._sinks[-1].append((rs, None, s2))
+        return [(e, s2) for rs, e, s2 in followed if rs is None]
+
     # -- tests ---------------------------------------------------------------------------------------------------------
-    def _truth(self, test: ast.expr, st: _State) -> list[tuple[bool, _State]]:
-        """the possible truth values of test in state st, each with the state in which it holds (unknown atoms fork)"""
+    def _truth(self, test: ast.expr, st: _State, pre: bool = False) -> list[tuple[bool, _State]]:
+        """the possible truth values of test in state st, each with the state in which it holds (unknown atoms fork).  `pre`: test is
+        already resolved (written in terms of the arguments), its names are not looked up again"""
         if isinstance(test, ast.BoolOp):
             is_and = isinstance(test.op, ast.And)
             out: list[tuple[bool, _State]] = []
@@ -87,7 +172,7 @@ class SymExec:
             for v in test.values:
                 nxt = []
                 for s in pending:
-                    for val, s2 in self._truth(v, s):
+                    for val, s2 in self._truth(v, s, pre):
                         if val != is_and:  # short circuit: a false conjunct / a true disjunct decides
                             out.append((val, s2))
                         else:
@@ -95,31 +180,53 @@ class SymExec:
                 pending = nxt
             return out + [(is_and, s) for s in pending]
         if isinstance(test, ast.UnaryOp) and isinstance(test.op, ast.Not):
-            return [(not v, s) for v, s in self._truth(test.operand, st)]
+            return [(not v, s) for v, s in self._truth(test.operand, st, pre)]
         if isinstance(test, ast.NamedExpr) and isinstance(test.target, ast.Name):
-            st.store[test.target.id] = _resolve(test.value, st)
-            return self._truth(test.value, st)
+            followed = self._follow(test.value, st, "test", pre)
+            if followed is not None:
+                out = []
+                for e, s2 in self._returned(followed):
+                    s2.store[test.target.id] = e
+                    out += self._truth(e, s2, True)
+                return out
+            st.store[test.target.id] = test.value if pre else _resolve(test.value, st)
+            return self._truth(test.value, st, pre)
         neg = False
         if isinstance(test, ast.Compare) and len(test.ops) == 1:
-            for part in (test.left, test.comparators[0]):  # walrus inside a comparison: `(m := f(x)) is not None`
+            sides = [test.left, test.comparators[0]]
+            for i, part in enumerate(sides):  # walrus inside a comparison: `(m := f(x)) is not None`
                 if isinstance(part, ast.NamedExpr) and isinstance(part.target, ast.Name):
-                    st.store[part.target.id] = _resolve(part.value, st)
+                    followed = self._follow(part.value, st, "value", pre)
+                    if followed is not None:
+                        out = []
+                        for e, s2 in self._returned(followed):
+                            s2.store[part.target.id] = e
+                            other = sides[1 - i] if pre else _resolve(sides[1 - i], s2)
+                            out += self._truth(ast.Compare(left=e if i == 0 else other, ops=test.ops, comparators=[other if i == 0 else e]), s2, True)
+                        return out
+                    st.store[part.target.id] = part.value if pre else _resolve(part.value, st)
             if type(test.ops[0]) in _NEG:
                 neg = True
                 test = ast.Compare(left=test.left, ops=[_NEG[type(test.ops[0])]()], comparators=test.comparators)
-        r = _resolve(test, st)
+        r = copy.deepcopy(test) if pre else _resolve(test, st)
         for n in ast.walk(r):  # the walrus itself is not part of the atom
             if isinstance(n, ast.Compare):
                 n.left = n.left.value if isinstance(n.left, ast.NamedExpr) else n.left
                 n.comparators = [c.value if isinstance(c, ast.NamedExpr) else c for c in n.comparators]
         if isinstance(r, ast.Constant):
             return [(bool(r.value) != neg, st)]
+        if isinstance(r, ast.Compare) and len(r.ops) == 1 and isinstance(r.ops[0], ast.Is) and isinstance(r.left, ast.Name) and \
+                isinstance(r.comparators[0], ast.Name) and r.left.id == r.comparators[0].id:  # a local known to hold this very argument
+            return [(True != neg, st)]
         if isinstance(r, ast.Compare) and len(r.ops) == 1 and isinstance(r.ops[0], (ast.Is, ast.Eq)) and isinstance(r.left, ast.Constant) and \
                 isinstance(r.comparators[0], ast.Constant):  # a local known to hold None / a literal on this path
             same = r.left.value is r.comparators[0].value if isinstance(r.ops[0], ast.Is) else r.left.value == r.comparators[0].value
             return [(bool(same) != neg, st)]
-        if isinstance(r, (ast.BoolOp, ast.UnaryOp)) and r is not test and norm(r) != norm(test):
-            return [(v != neg, s) for v, s in self._truth(r, st)]  # a local that holds a boolean expression
+        if isinstance(r, (ast.BoolOp, ast.UnaryOp)) and not pre and norm(r) != norm(test):
+            return [(v != neg, s) for v, s in self._truth(r, st, True)]  # a local that holds a boolean expression
+        followed = self._follow(r, st, "test", True)
+        if followed is not None:  # a predicate over the arguments: true exactly when what it returns is
+            return [(v != neg, s3) for e, s2 in self._returned(followed) for v, s3 in self._truth(e, s2, True)]
         key = norm(r)
         self.atoms.setdefault(key, r)
         if key in self.env:
@@ -142,12 +249,15 @@ class SymExec:
                 break
         return cur
 
-    def _bind(self, target: ast.expr, value: ast.expr | None, st: _State) -> None:
+    def _bind(self, target: ast.expr, value: ast.expr | None, st: _State, pre: bool = False) -> None:
+        def res(v: ast.expr) -> ast.expr:
+            return v if pre else _resolve(v, st)
+
         if isinstance(target, ast.Name):
-            st.store[target.id] = _resolve(value, st) if value is not None else None
+            st.store[target.id] = res(value) if value is not None else None
         elif isinstance(target, (ast.Tuple, ast.List)):
             if isinstance(value, (ast.Tuple, ast.List)) and len(value.elts) == len(target.elts):
-                vals = [_resolve(v, st) for v in value.elts]
+                vals = [res(v) for v in value.elts]
                 for t, v in zip(target.elts, vals):
                     if isinstance(t, ast.Name):
                         st.store[t.id] = v
@@ -161,6 +271,14 @@ class SymExec:
             for val, s2 in self._truth(value.test, st):
                 out += self._assign(targets, value.body if val else value.orelse, s2)
             return out
+        followed = self._follow(value, st, "value")
+        if followed is not None:  # x = helper(...): one state for each way the helper returns
+            out = []
+            for e, s2 in self._returned(followed):
+                for t in targets:
+                    self._bind(t, e, s2, pre=True)
+                out.append(s2)
+            return out
         for t in targets:
             self._bind(t, value, st)
         return [st]
@@ -169,8 +287,13 @@ class SymExec:
         if isinstance(value, ast.IfExp):  # return A if T else B
             for val, s2 in self._truth(value.test, st):
                 self._ret(s, value.body if val else value.orelse, s2)
+            return
+        followed = self._follow(value, st, "value")
+        if followed is not None:  # return helper(...): returns whatever the helper returns
+            for e, s2 in self._returned(followed):
+                self._sinks[-1].append((s, e, s2))
         else:
-            self.terminals.append((s, _resolve(value, st) if value is not None else None, st))
+            self._sinks[-1].append((s, _resolve(value, st) if value is not None else None, st))
 
     def _stmt(self, s: ast.stmt, st: _State) -> list[_State]:
         self.budget -= 1
@@ -181,7 +304,9 @@ class SymExec:
             return []
         if isinstance(s, (ast.Raise, ast.Continue, ast.Break)):
             if isinstance(s, ast.Raise):
-                self.terminals.append((s, None, st))
+                self._sinks[-1].append((s, None, st))
+            elif self._loops:
+                self._loops[-1][isinstance(s, ast.Break)].append(st)
             return []
         if isinstance(s, ast.If):
             out: list[_State] = []
@@ -195,13 +320,28 @@ class SymExec:
             for n in names_in(s.target):
                 st.store[n] = None
             return [st]
+        if isinstance(s, ast.For):
+            seq = _resolve(s.iter, st)
+            if isinstance(seq, (ast.Tuple, ast.List)) and 0 < len(seq.elts) <= 4 and not any(isinstance(x, ast.Starred) for x in seq.elts):
+                cur, done = [st], []  # a loop over a sequence that is written out is its iterations one after the other
+                for elt in seq.elts:
+                    self._loops.append(([], []))
+                    nxt: list[_State] = []
+                    for c in cur:
+                        self._bind(s.target, elt, c, pre=True)
+                        nxt += self._seq(s.body, [c])
+                    continued, broken = self._loops.pop()
+                    cur, done = nxt + continued, done + broken
+                return self._seq(s.orelse, cur) + done
         if isinstance(s, (ast.For, ast.AsyncFor, ast.While)):
             bound = {n.id for x in ast.walk(s) for n in [x] if isinstance(n, ast.Name) and isinstance(n.ctx, ast.Store)}
             inner = st.fork()
             for n in bound:
                 inner.store[n] = None
                 st.store[n] = None
+            self._loops.append(([], []))
             after = self._seq(s.body, [inner])  # one symbolic iteration (returns inside are terminals), or none at all
+            self._loops.pop()
             return [st] + after[:1]
         if isinstance(s, (ast.With, ast.AsyncWith)):
             return self._seq(s.body, [st])
@@ -231,15 +371,16 @@ def _isinstance_atom(ix: Any, module: Any, e: ast.AST, params: list[str]) -> tup
 class MergeFn:
     """one two-argument merge function, executed under every truth assignment of its isinstance(<argument>, T) tests"""
 
-    def __init__(self, ix: Any, f: Any) -> None:
+    def __init__(self, ix: Any, f: Any, follow: Follow | None = None) -> None:
         self.f = f
         a = f.node.args
         self.params = [p.arg for p in [*a.posonlyargs, *a.args]][:2]
         self.atoms: dict[str, tuple[str, frozenset[str]]] = {}
         self.runs: list[tuple[dict[str, bool], SymExec]] = []
+        self.followed: set[tuple[str, int, int]] = set()  # calls of Follow functions that were decided as part of this function
         seen: set[str] = set()
         for _ in range(3):  # atoms on a local appear once the local is resolved (enum_prop -> prop1 when prop1 is the enum)
-            probes = [SymExec(f.node)] + [r for _, r in self.runs]
+            probes = [SymExec(f.node, None, follow)] + [r for _, r in self.runs]
             for p in probes:
                 for key, e in p.atoms.items():
                     at = _isinstance_atom(ix, f.module, e, self.params)
@@ -252,7 +393,11 @@ class MergeFn:
             keys = sorted(self.atoms)
             for vals in itertools.product([False, True], repeat=len(keys)):
                 env = dict(zip(keys, vals))
-                self.runs.append((env, SymExec(f.node, env)))
+                self.runs.append((env, SymExec(f.node, env, follow)))
+        if not self.runs:  # no isinstance test on the arguments: one run, nothing is known about them
+            self.runs = [({}, SymExec(f.node, {}, follow))]
+        for _, r in self.runs:
+            self.followed |= r.followed
 
     def restrict_to_calls_from(self, caller: "MergeFn") -> None:
         """keep the truth assignments under which `caller` can call this function with its own two arguments in the same order (the callee
@@ -483,7 +628,20 @@ def _feasible(mf: MergeFn, env: dict[str, bool]) -> bool:
     return True
 
 
+def _same_object_assumed(mf: MergeFn, run: SymExec, st: _State) -> bool:
+    """on this path `<one argument> is <the other>` holds"""
+    for key, val in st.assume.items():
+        e = run.atoms.get(key)
+        if val and isinstance(e, ast.Compare) and len(e.ops) == 1 and isinstance(e.ops[0], ast.Is):
+            sides = [e.left, e.comparators[0]]
+            if all(isinstance(s, ast.Name) for s in sides) and {s.id for s in sides} == set(mf.params):  # type: ignore[attr-defined]
+                return True
+    return False
+
+
 def _same_class_assumed(mf: MergeFn, run: SymExec, st: _State) -> bool:
+    if _same_object_assumed(mf, run, st):
+        return True
     for key, val in st.assume.items():
         e = run.atoms.get(key)
         if val and isinstance(e, ast.Compare) and isinstance(e.ops[0], ast.Is):
@@ -524,11 +682,81 @@ def _referenced_region(ix: Any, f: Any, depth: int = 3) -> list[Any]:
     return out
 
 
+def _is_truth_value(e: ast.expr | None, predicates: Iterable[str] = ()) -> bool:
+    """the expression is a truth value computed by tests (not one of the objects that are tested)"""
+    if isinstance(e, ast.BoolOp):
+        return all(_is_truth_value(v, predicates) for v in e.values)
+    if isinstance(e, ast.UnaryOp):
+        return isinstance(e.op, ast.Not)
+    if isinstance(e, ast.Constant):
+        return isinstance(e.value, bool)
+    if isinstance(e, ast.Call):
+        return call_name(e) in ("isinstance", "issubclass", "any", "all", "bool") or call_name(e) in predicates
+    return isinstance(e, ast.Compare)
+
+
+def _followed_helpers(reg: list[Any], dispatcher: Any) -> tuple[Follow, set[str]]:
+    """(the functions of the region that are judged inside their callers, the predicates among them).
+    - A function that tests an argument against a class it receives as a parameter has no verdict of its own: which class is kept and
+      which is discarded is a fact of each call.  It is executed as part of every function that calls it, with that call's classes.
+    - Likewise a function that builds a merge result (MERGE_BASE_FN) without testing the class of any of its arguments: what it is handed
+      is known to the caller only.
+    - A predicate (returns the truth value of isinstance tests on its arguments) contributes what it tests to the function that asks."""
+    value: dict[str, ast.FunctionDef] = {}
+    preds: dict[str, ast.FunctionDef] = {}
+    for untested in (False, True):  # who tests what must be settled (predicates followed) before a function counts as testing nothing
+        for _ in range(3):  # a helper that only hands on to such a helper is one itself
+            before = (set(value), set(preds))
+            follow = Follow(value, preds)
+            for f in reg:
+                if f.name in value or f is dispatcher or f.name == MERGE_BASE_FN:
+                    continue
+                own = {p.arg for p in f.params}
+                run = SymExec(f.node, None, follow)
+                seen = [*run.atoms.values(), *[c for _, e, _ in run.terminals if e is not None for c in calls_in(e)]]  # tested, or returned as the answer
+                tests = [e for e in seen if isinstance(e, ast.Call) and call_name(e) == "isinstance" and len(e.args) == 2]
+                tests_own = any(isinstance(e.args[0], ast.Name) and e.args[0].id in own for e in tests)
+                builds = any(isinstance(e, ast.Call) and call_name(e) == MERGE_BASE_FN for _, e, _ in run.terminals)
+                if any(names_in(e.args[1]) & own for e in tests) or (untested and builds and not tests_own):
+                    value[f.name] = f.node
+                    preds.pop(f.name, None)
+                elif tests_own and run.terminals and all(isinstance(s, ast.Return) and _is_truth_value(e, follow.test) for s, e, _ in run.terminals):
+                    preds[f.name] = f.node
+            if (set(value), set(preds)) == before:
+                break
+    return Follow(value, preds), set(preds)
+
+
+def _decided_in_callers(reg: list[Any], name: str, followed: set[tuple[str, int, int]]) -> bool:
+    """every mention of the function in the region is a call that was executed as part of its caller"""
+    n_refs = 0
+    for f in reg:
+        call_of = {id(c.func): c for c in calls_in(f.node)}
+        for n in ast.walk(f.node):
+            if isinstance(n, ast.Name) and isinstance(n.ctx, ast.Load) and n.id == name:
+                n_refs += 1
+                if id(n) not in call_of or _site(call_of[id(n)]) not in followed:
+                    return False
+    return n_refs > 0
+
+
 def _merge_rules(rep: Report, ctx: Any, mp: Any) -> None:
     ix = ctx.py
     it, _ = ctx.flow
-    fns = [MergeFn(ix, f) for f in _referenced_region(ix, mp) if len([*f.node.args.posonlyargs, *f.node.args.args]) >= 2 and f.node.args.vararg is None]
-    fns = [m for m in fns if m.atoms]
+    reg = _referenced_region(ix, mp)
+    follow, predicates = _followed_helpers(reg, mp)
+    fns = [MergeFn(ix, f, follow) for f in reg if len([*f.node.args.posonlyargs, *f.node.args.args]) >= 2 and f.node.args.vararg is None]
+    # a function without isinstance tests on its arguments decides nothing about classes; a predicate returns no merge result (its tests
+    # count where it is asked)
+    fns = [m for m in fns if (m.atoms or m.f.name in follow.value) and m.f.name not in predicates]
+    # a function that is handed the classes it tests (or builds a result from arguments it does not test) is judged in its callers, with
+    # what each call knows; on its own only when a mention of it was not executed as part of a function that is judged here - then the
+    # classes are unknown and the clauses say so
+    decided: set[tuple[str, int, int]] = set().union(*[m.followed for m in fns if m.f.name not in follow.test])
+    in_callers = {g for g in follow.value if _decided_in_callers(reg, g, decided)}
+    fns = [m for m in fns if m.f.name not in in_callers]
+    for g in sorted(set(follow.value) - in_callers):
+        rep.require(any(m.f.name == g for m in fns), f"{g} is judged: as part of every function that calls it, or on its own as a function of two arguments")
     rep.require(any(m.f is mp for m in fns), "isinstance dispatch in merge_properties")
     mpf = next(m for m in fns if m.f is mp)
     for m in fns:
@@ -586,7 +814,7 @@ def _merge_rules(rep: Report, ctx: Any, mp: Any) -> None:
                     continue
                 used = names_in(e) & set(mf.params)
                 equal = any(v and isinstance(r.atoms.get(k), ast.Compare) and isinstance(r.atoms[k].ops[0], ast.Eq) and  # type: ignore[union-attr]
-                            names_in(r.atoms[k]) >= set(mf.params) for k, v in st.assume.items())
+                            names_in(r.atoms[k]) >= set(mf.params) for k, v in st.assume.items()) or _same_object_assumed(mf, r, st)
                 if isinstance(e, ast.Name) and e.id not in mf.params:
                     continue  # a value produced elsewhere on the path (the result of a delegation held in a local)
                 if used != set(mf.params) and not equal:
